@@ -303,11 +303,16 @@ def run(ctx):
     i = 0
     while not ctx.out_of_time():
         r = i % 25
-        if r == 0 and ctx.time_left() > 0:
-            shared_instances_round(ctx, lw, rng, baseline)
-        elif r % 2:
-            reuse_history(ctx, lw, rng)
-        else:
-            rejection_history(ctx, lw, rng)
+        try:
+            if r == 0 and ctx.time_left() > 0:
+                shared_instances_round(ctx, lw, rng, baseline)
+            elif r % 2:
+                reuse_history(ctx, lw, rng)
+            else:
+                rejection_history(ctx, lw, rng)
+        except Exception as e:  # noqa: BLE001 - a legal construction step raised: C02's business, but the
+            # reject-atomicity monitor may have observed a half-applied call on the way
+            ctx.count("history_aborted:" + type(e).__name__)
+            drain_into(ctx, {"aborted_by": type(e).__name__ + ": " + str(e)[:200]})
         i += 1
     merge_stats(ctx)
